@@ -55,6 +55,18 @@ Theorem C06_argument_prefix : forall s, (forall g, s <> 64 :: g) -> (forall r, s
 Proof. exact interpret_prefix. Qed.
 Print Assumptions C06_argument_prefix.
 
+(* the value of a fixed-pattern flag (--tags=VALUE ...) is read by strconv.ParseBool: exactly six spellings of true keep the
+   flag's polarity, exactly six of false invert it — for that occurrence, whatever came before *)
+Theorem C06_flag_values : forall v b, parse_bool v = Some b <->
+  In v (if b then [str "1"; str "t"; str "T"; str "TRUE"; str "true"; str "True"]
+        else [str "0"; str "f"; str "F"; str "FALSE"; str "false"; str "False"]).
+Proof. exact parse_bool_values. Qed.
+Print Assumptions C06_flag_values.
+
+Theorem C06_flag_false_inverts : forall inc v, parse_bool v = Some false -> flag_polarity inc v = Some (negb inc).
+Proof. exact flag_polarity_false. Qed.
+Print Assumptions C06_flag_false_inverts.
+
 (* the decoder the matcher reads names with is UTF-8: every scalar value's encoding decodes to it, and whatever is decoded in
    more than one byte is the canonical encoding of a scalar value (no overlong form, no surrogate, nothing above U+10FFFF);
    a width of one is an ASCII byte or U+FFFD standing for a byte that begins no valid sequence *)
